@@ -381,7 +381,7 @@ var stop func() bool
 
 func livenessPass(r *mc.Run, states []stateRec, cov map[string]any) {
 	const rLive = 8
-	type res struct{ silent, honest, usurp int }
+	type res struct{ silent, honest, usurp, veto int }
 	out := make([]res, len(states))
 	stopTails := r.Expired
 	if PartFraction > 0 {
@@ -389,16 +389,19 @@ func livenessPass(r *mc.Run, states []stateRec, cov map[string]any) {
 	}
 	done := mc.ParallelFor(len(states), 0, stopTails, func(i int) {
 		nc, _ := ConfigByName(states[i].cfg)
-		for mode := 0; mode < 3; mode++ {
+		for mode := 0; mode < 4; mode++ {
 			_ = nc
-			if mode == 2 && nc.Cfg.Byz < 0 {
+			if mode >= 2 && nc.Cfg.Byz < 0 {
 				continue
+			}
+			if mode == 3 && len(states[i].w.Certs) == 0 && states[i].w.Info().LeaderStay != nc.Cfg.Byz {
+				continue // no certificate to report and the adversary does not lead next: the same as mode 2 until one appears (kept where it leads)
 			}
 			w, ok := states[i].w.Clone(), true
 			// a prefix in which an honest node already committed has its block: after GST the
 			// committed certificate is gossiped and adopted through the block path (C02's gate)
 			if !ok || w.Info().Terminal || len(w.DistinctCommits()) > 0 {
-				out[i] = res{0, 0, 0}
+				out[i] = res{0, 0, 0, 0}
 				return
 			}
 			n := w.Tail(mode, rLive)
@@ -407,12 +410,15 @@ func livenessPass(r *mc.Run, states []stateRec, cov map[string]any) {
 				out[i].silent = n
 			case 1:
 				out[i].honest = n
-			default:
+			case 2:
 				out[i].usurp = n
+			default:
+				out[i].veto = n
 			}
 		}
 	})
 	hist := map[int]int{}
+	perMode := map[int]map[int]int{}
 	worst := 0
 	var worstAt stateRec
 	tails := 0
@@ -420,18 +426,22 @@ func livenessPass(r *mc.Run, states []stateRec, cov map[string]any) {
 		if i >= done {
 			break
 		}
-		for m, n := range []int{o.silent, o.honest, o.usurp} {
+		for m, n := range []int{o.silent, o.honest, o.usurp, o.veto} {
 			if n == 0 {
 				continue
 			}
 			tails++
 			hist[n]++
+			if perMode[m] == nil {
+				perMode[m] = map[int]int{}
+			}
+			perMode[m][n]++
 			if n < 0 {
 				var names []string
 				for _, op := range states[i].path {
 					names = append(names, AllScenarios[op].String())
 				}
-				mode := []string{"byzantine-silent", "byzantine-honest", "byzantine-active"}[m]
+				mode := []string{"byzantine-silent", "byzantine-honest", "byzantine-active", "byzantine-active+lock-veto"}[m]
 				r.Violation("C15:no-commit-within-8-rounds:"+mode, fmt.Sprintf("config %s: after adversarial prefix %v, %d synchronous rounds (%s) did not commit", states[i].cfg, names, rLive, mode),
 					map[string]any{"config": states[i].cfg, "path": states[i].path, "mode": m, "scenarios": names})
 			} else if n > worst {
@@ -452,7 +462,16 @@ func livenessPass(r *mc.Run, states []stateRec, cov map[string]any) {
 	cov["worst_rounds_to_commit"] = worst
 	cov["worst_prefix"] = map[string]any{"config": worstAt.cfg, "path": worstAt.path}
 	cov["liveness_bound_rounds"] = rLive
-	fmt.Printf("liveness tails=%d histogram=%v worst=%d\n", tails, hs, worst)
+	pm := map[string]map[string]int{}
+	for m, h := range perMode {
+		name := []string{"byzantine-silent", "byzantine-honest", "byzantine-active", "byzantine-active+lock-veto"}[m]
+		pm[name] = map[string]int{}
+		for k, v := range h {
+			pm[name][fmt.Sprint(k)] = v
+		}
+	}
+	cov["rounds_to_commit_histogram_per_tail_mode"] = pm
+	fmt.Printf("liveness tails=%d histogram=%v worst=%d per-mode=%v\n", tails, hs, worst, pm)
 }
 
 func evidencePass(r *mc.Run, states []stateRec, cov map[string]any) {
@@ -576,7 +595,11 @@ func replayMain(r *mc.Run, trace bool) {
 			}
 			outcomes[okey+fmt.Sprintf(" tail commits after %d rounds", n)]++
 			if n < 0 && i == 0 {
-				r.Violation("C15:no-commit-within-8-rounds", fmt.Sprintf("config %s: replayed prefix %v, tail mode %d: 8 synchronous rounds did not commit", rp.Config, rp.Path, *rp.Mode), nil)
+				mn := "?"
+				if *rp.Mode >= 0 && *rp.Mode < 4 {
+					mn = []string{"byzantine-silent", "byzantine-honest", "byzantine-active", "byzantine-active+lock-veto"}[*rp.Mode]
+				}
+				r.Violation("C15:no-commit-within-8-rounds:"+mn, fmt.Sprintf("config %s: replayed prefix %v, tail mode %d (%s): 8 synchronous rounds did not commit", rp.Config, rp.Path, *rp.Mode, mn), nil)
 			}
 		}
 	}
